@@ -24,30 +24,46 @@ Definition pf_spec_ok (c : pf_case) : bool :=
 (** filter_by_path_includes_or_excludes observed (UtilsMixin and the copy in remove_unused_imports.py) *)
 Definition lf_case := (list Z * list Z * (Z * Z * (Z * Z)) * bool)%type.
 Definition lf_model_ok (c : lf_case) : bool :=
-  let '(ex, inc, p, obs) := c in Bool.eqb (filter_by_path_includes_or_excludes ex inc p) obs.
+  let '(ex, inc, p, obs) := c in Bool.eqb (filter_by_path_includes_or_excludes line_filter_rule ex inc p) obs.
 Definition lf_spec_ok (c : lf_case) : bool :=
   let '(ex, inc, p, obs) := c in
   if Z.eqb (start_line p) (end_line p) then Bool.eqb (permittedb ex inc (start_line p)) obs else true.
+(** does the known deviation "a non-empty exclusion list shadows the inclusion list" predict the observation? *)
+Definition lf_shadow_ok (c : lf_case) : bool :=
+  let '(ex, inc, p, obs) := c in
+  if Z.eqb (start_line p) (end_line p) then Bool.eqb (shadow_permittedb ex inc (start_line p)) obs else true.
 
 (** End to end: one file of a CLI run. sites = first lines of the candidate constructs, each spanning [span] lines;
     observed = the sites that were rewritten. *)
 Definition site_case := (str * str * list str * list str * list Z * N * list Z)%type.
 Definition site_lines (n : Z) (span : N) : list Z := map (fun k => (n + Z.of_nat k)%Z) (seq 0 (N.to_nat span)).
-Definition site_permitted (Le Li : list Z) (span : N) (n : Z) : bool :=
-  match Le with
-  | _ :: _ => forallb (fun l => negb (memZ l Le)) (site_lines n span)
-  | [] => match Li with _ :: _ => forallb (fun l => memZ l Li) (site_lines n span) | [] => true end
+(** the property text: no line of the site excluded, and - when lines of the file are included - all of them included *)
+Definition site_permitted_by (v : lf_rule) (Le Li : list Z) (span : N) (n : Z) : bool :=
+  match v with
+  | ExcludeThenInclude =>
+      forallb (fun l => negb (memZ l Le)) (site_lines n span) &&
+      match Li with _ :: _ => forallb (fun l => memZ l Li) (site_lines n span) | [] => true end
+  | ExcludeShadowsInclude =>
+      match Le with
+      | _ :: _ => forallb (fun l => negb (memZ l Le)) (site_lines n span)
+      | [] => match Li with _ :: _ => forallb (fun l => memZ l Li) (site_lines n span) | [] => true end
+      end
   end.
-Definition expected_sites (form : path_form) (c : site_case) : option (list Z) :=
+Definition expected_sites_by (v : lf_rule) (form : path_form) (c : site_case) : option (list Z) :=
   let '(as_passed, rel, exc, inc, sites, span, _) := c in
   match ff_files_to_analyze ff_exclude_sentinel defaults [[46; 112; 121]%N] [rel] exc inc with
   | [] => Some []
   | _ => match process_file_lines form as_passed (Some rel) exc, process_file_lines form as_passed (Some rel) inc with
-         | Some Le, Some Li => Some (List.filter (site_permitted Le Li span) sites)
+         | Some Le, Some Li => Some (List.filter (site_permitted_by v Le Li span) sites)
          | _, _ => None
          end
   end.
 Definition observed_of (c : site_case) : list Z := let '(_, _, _, _, _, _, obs) := c in obs.
+Definition expected_sites := expected_sites_by ExcludeThenInclude.
 Definition site_spec_ok (c : site_case) : bool := option_eqb zs_eqb (expected_sites Both c) (Some (observed_of c)).
 Definition site_aspassed_ok (c : site_case) : bool := option_eqb zs_eqb (expected_sites AsPassedAbsolute c) (Some (observed_of c)).
-Definition site_current_ok (c : site_case) : bool := option_eqb zs_eqb (expected_sites line_pattern_path_form c) (Some (observed_of c)).
+(** the two known deviations, each predicting the observation exactly *)
+Definition site_shadow_ok (c : site_case) : bool :=
+  option_eqb zs_eqb (expected_sites_by ExcludeShadowsInclude Both c) (Some (observed_of c)).
+Definition site_current_ok (c : site_case) : bool :=
+  option_eqb zs_eqb (expected_sites_by line_filter_rule line_pattern_path_form c) (Some (observed_of c)).
